@@ -21,6 +21,12 @@ pub enum Fault {
     OutEfbig(u64),
     OutNoDir,
     OutIsDir,
+    /// write_graph in a child process under the system-call seam (short writes, EINTR, errno
+    /// failures at decider-chosen calls), then an undisturbed read
+    SysWrite(crate::cli::SysPlan),
+    /// an undisturbed write_graph, then read_graph in a child process under the system-call seam
+    /// (short reads, EINTR, errno failures)
+    SysRead(crate::cli::SysPlan),
 }
 
 #[derive(Clone, Debug, Serialize, Deserialize, PartialEq)]
@@ -269,6 +275,12 @@ impl C13 {
                 let dir = scratch.dir.clone();
                 let path = match fault {
                     Fault::None | Fault::OutEfbig(_) => dir.join("g.qgraph"),
+                    Fault::SysWrite(_) | Fault::SysRead(_) => {
+                        // only this sub-directory is tracked by the shim (the child's own spec and
+                        // result files live next to it)
+                        let _ = std::fs::create_dir_all(dir.join("io"));
+                        dir.join("io").join("g.qgraph")
+                    }
                     Fault::OutEnospc => std::path::PathBuf::from("/dev/full"),
                     Fault::OutNoDir => dir.join("missing").join("g.qgraph"),
                     Fault::OutIsDir => dir.clone(),
@@ -279,8 +291,12 @@ impl C13 {
                     Fault::OutEfbig(_) => "out_efbig",
                     Fault::OutNoDir => "out_nodir",
                     Fault::OutIsDir => "out_is_dir",
+                    Fault::SysWrite(_) => "sys_write_plan",
+                    Fault::SysRead(_) => "sys_read_plan",
                 };
-                if matches!(fault, Fault::None | Fault::OutEfbig(_)) && sc.pre > 0 {
+                // (faults that actually fired, any of them an errno failure) under the system-call seam
+                let mut sys_fired: Option<(usize, bool)> = None;
+                if matches!(fault, Fault::None | Fault::OutEfbig(_) | Fault::SysWrite(_)) && sc.pre > 0 {
                     // something longer is already there: write_graph must replace it entirely
                     let filler = if sc.pre == 1 {
                         "#".repeat(40_000)
@@ -299,7 +315,36 @@ impl C13 {
                     ctx.out.probe("file_preexisting_longer_content");
                 }
                 // result of the write: Ok / Err / panic
-                let wrote: Result<(), String> = if let Fault::OutEfbig(limit) = fault {
+                let wrote: Result<(), String> = if let Fault::SysWrite(plan) = fault {
+                    ctx.out.engine = "child_process";
+                    let specf = dir.join("spec.json");
+                    std::fs::write(&specf, serde_json::to_string(sc).unwrap()).expect("scratch write");
+                    let child_seed = dec.draw64("child.seed");
+                    let mut o = std::process::Command::new(&env.self_exe);
+                    o.arg("--child-write-graph").arg(&specf).arg(&path).arg(u64::MAX.to_string()).arg(child_seed.to_string()).stdin(std::process::Stdio::null());
+                    let log = crate::cli::arm_sys(&mut o, &dir.join("io"), plan, false);
+                    let o = crate::cli::output_locked(&mut o).expect("spawn child");
+                    let events = crate::cli::parse_syslog(&log);
+                    let _ = std::fs::remove_file(&log);
+                    let mut fired = 0;
+                    let mut hard = false;
+                    for e in &events {
+                        ctx.out.ev_str(&format!("{}{} {} {}", e.op, e.tok, e.asked, e.result));
+                        if let Some(name) = e.fault_name() {
+                            ctx.out.fault(&name);
+                            fired += 1;
+                            hard |= e.is_hard_error();
+                        }
+                    }
+                    ctx.out.steps += events.len() as u64;
+                    sys_fired = Some((fired, hard));
+                    let txt = String::from_utf8_lossy(&o.stdout).to_string();
+                    if txt.contains("RESULT ok") {
+                        Ok(())
+                    } else {
+                        Err(txt.trim().to_string())
+                    }
+                } else if let Fault::OutEfbig(limit) = fault {
                     ctx.out.engine = "child_process";
                     let specf = dir.join("spec.json");
                     std::fs::write(&specf, serde_json::to_string(sc).unwrap()).expect("scratch write");
@@ -351,7 +396,56 @@ impl C13 {
                             Violation::new("write_reported_success_but_not_durable", format!("write_graph reported success under fault {fname}")).with("fault", fname),
                         );
                     }
+                    (Ok(()), Fault::SysRead(plan)) => {
+                        // the file was written undisturbed; read it back in a child under the seam
+                        ctx.out.engine = "child_process";
+                        let dump = dir.join("decoded.json");
+                        let child_seed = dec.draw64("child.seed");
+                        let mut o = std::process::Command::new(&env.self_exe);
+                        o.arg("--child-read-graph").arg(&path).arg(if sc.decode_hash_backend { "1" } else { "0" }).arg(child_seed.to_string()).arg(&dump).stdin(std::process::Stdio::null());
+                        let log = crate::cli::arm_sys(&mut o, &dir.join("io"), plan, false);
+                        let o = crate::cli::output_locked(&mut o).expect("spawn child");
+                        let events = crate::cli::parse_syslog(&log);
+                        let _ = std::fs::remove_file(&log);
+                        let mut fired = 0;
+                        let mut hard = false;
+                        for e in &events {
+                            ctx.out.ev_str(&format!("{}{} {} {}", e.op, e.tok, e.asked, e.result));
+                            if let Some(name) = e.fault_name() {
+                                ctx.out.fault(&name);
+                                fired += 1;
+                                hard |= e.is_hard_error();
+                            }
+                        }
+                        if fired == 0 {
+                            ctx.out.fault("sys_none_fired");
+                        }
+                        ctx.out.steps += 1 + events.len() as u64;
+                        let txt = String::from_utf8_lossy(&o.stdout).to_string();
+                        if txt.contains("RESULT ok") {
+                            // the file on disk is complete: a reported success must be the whole diagram
+                            match std::fs::read_to_string(&dump).ok().and_then(|t| Dg::from_wire(&t)) {
+                                Some(d2) => {
+                                    ctx.out.probe(if hard { "sys_success_after_errno_judged" } else if fired > 0 { "sys_success_under_transparent_faults_judged" } else { "sys_success_no_fault_fired" });
+                                    ctx.judge_dg(d2, "file.sys_read");
+                                }
+                                None => panic!("harness: child reported ok but left no readable dump"),
+                            }
+                        } else if fired == 0 {
+                            ctx.out.violations.push(Violation::new("read_failed_without_fault", format!("read_graph of a file written by write_graph failed with no fault injected: {}", txt.trim())));
+                        } else if hard {
+                            ctx.out.probe("fault_led_to_reported_failure");
+                        } else {
+                            ctx.out.probe("sys_transparent_fault_led_to_failure");
+                        }
+                    }
                     (Ok(()), _) => {
+                        if let Some((fired, hard)) = sys_fired {
+                            if fired == 0 {
+                                ctx.out.fault("sys_none_fired");
+                            }
+                            ctx.out.probe(if hard { "sys_success_after_errno_judged" } else if fired > 0 { "sys_success_under_transparent_faults_judged" } else { "sys_success_no_fault_fired" });
+                        }
                         // success: the file must be complete, decodable and isomorphic
                         let bytes = std::fs::metadata(&path).map(|m| m.len()).unwrap_or(0);
                         let core = Core::new(dec, 1);
@@ -387,8 +481,16 @@ impl C13 {
                             Caught::Budget => {}
                         }
                     }
-                    (Err(why), Fault::None) => {
+                    (Err(why), Fault::None) | (Err(why), Fault::SysRead(_)) => {
                         ctx.out.violations.push(Violation::new("write_failed_without_fault", format!("write_graph failed with no fault injected: {why}")));
+                    }
+                    (Err(why), Fault::SysWrite(_)) if sys_fired.map(|f| f.0 == 0).unwrap_or(false) => {
+                        ctx.out.violations.push(Violation::new("write_failed_without_fault", format!("write_graph failed in a child with no fault fired: {why}")));
+                    }
+                    (Err(_), Fault::SysWrite(_)) if sys_fired.map(|f| !f.1).unwrap_or(false) => {
+                        // short writes and EINTR are legal behaviour of write(2) that callers are expected to
+                        // absorb; the property does not say so, hence a probe, not a verdict
+                        ctx.out.probe("sys_transparent_fault_led_to_failure");
                     }
                     (Err(_), _) => {
                         ctx.out.probe("fault_led_to_reported_failure");
@@ -473,10 +575,12 @@ pub fn child_write_graph(spec: &str, out: &str, limit: u64, seed: u64) -> i32 {
     crate::simcore::install_panic_hook();
     let txt = std::fs::read_to_string(spec).expect("spec");
     let sc: Sc = serde_json::from_str(&txt).expect("spec json");
-    unsafe {
-        libc::signal(libc::SIGXFSZ, libc::SIG_IGN);
-        let rl = libc::rlimit { rlim_cur: limit, rlim_max: limit };
-        libc::setrlimit(libc::RLIMIT_FSIZE, &rl);
+    if limit != u64::MAX {
+        unsafe {
+            libc::signal(libc::SIGXFSZ, libc::SIG_IGN);
+            let rl = libc::rlimit { rlim_cur: limit, rlim_max: limit };
+            libc::setrlimit(libc::RLIMIT_FSIZE, &rl);
+        }
     }
     let path = std::path::PathBuf::from(out);
     let core = Core::new(Decider::seeded(seed), 1);
@@ -498,6 +602,31 @@ pub fn child_write_graph(spec: &str, out: &str, limit: u64, seed: u64) -> i32 {
     0
 }
 
+/// Child-process entry: read a graph (under whatever the system-call seam injects) and hand the
+/// decoded diagram to the harness through an untracked file.
+pub fn child_read_graph(file: &str, hash_backend: bool, seed: u64, dump: &str) -> i32 {
+    crate::simcore::install_panic_hook();
+    let path = std::path::PathBuf::from(file);
+    let core = Core::new(Decider::seeded(seed), 1);
+    let (r, _core) = with_sim(core, move || {
+        if hash_backend {
+            quizx::json::read_graph::<quizx::hash_graph::Graph>(&path).map(|g| Dg::of(&g))
+        } else {
+            quizx::json::read_graph::<quizx::vec_graph::Graph>(&path).map(|g| Dg::of(&g))
+        }
+    });
+    match r {
+        Caught::Ok(Ok(d)) => {
+            std::fs::write(dump, d.to_wire()).expect("dump");
+            println!("RESULT ok");
+        }
+        Caught::Ok(Err(e)) => println!("RESULT err {e}"),
+        Caught::Panic(m) => println!("RESULT panic {m}"),
+        Caught::Budget => println!("RESULT budget"),
+    }
+    0
+}
+
 impl Property for C13 {
     type Sc = Sc;
     fn id(&self) -> &'static str {
@@ -507,7 +636,7 @@ impl Property for C13 {
         "exploration"
     }
     fn rule(&self) -> String {
-        "decider builds a diagram (<=10 spiders Z/X and structurally H-boxes, <=3 inputs and <=3 outputs, bare and Hadamard wires between boundaries, both edge types, phases with denominators up to 256 and a few beyond, unique / colliding / negative / fractional coordinates, scalar sqrt2^p w^k times (1+e^{ia}) factors) in the vector or hash backend, and then every RandomState key of every map created in encode_graph and in each of several independent decode_graph calls (so JSON member order, decoded vertex numbering and edge insertion order are recorded decisions); the file form writes through write_graph/read_graph under no fault, ENOSPC (/dev/full), a torn write at a decider-chosen byte offset (RLIMIT_FSIZE in a child process), missing directory, target is a directory. Oracle: anchored isomorphism (inputs/outputs in order, types, phases, edge types, coordinates), exact scalar for sqrt2^p w^k and 1e-9 relative otherwise, tensor equality where evaluable, and decodes under different hash orders isomorphic to each other. Under faults only a reported success with a missing/undecodable/different file is a violation. Non-trivial: >=2 boundaries, >=1 Hadamard edge, >=1 non-zero phase, and a decoded numbering that differs from the original. Distinct by (scenario digest, event digest).".into()
+        "decider builds a diagram (<=10 spiders Z/X and structurally H-boxes, <=3 inputs and <=3 outputs, bare and Hadamard wires between boundaries, both edge types, phases with denominators up to 256 and a few beyond, unique / colliding / negative / fractional coordinates, scalar sqrt2^p w^k times (1+e^{ia}) factors) in the vector or hash backend, and then every RandomState key of every map created in encode_graph and in each of several independent decode_graph calls (so JSON member order, decoded vertex numbering and edge insertion order are recorded decisions); the file form writes through write_graph/read_graph under no fault, ENOSPC (/dev/full), a torn write at a decider-chosen byte offset (RLIMIT_FSIZE in a child process), missing directory, target is a directory, and (sub-batch file_sys) write_graph resp. read_graph in a child process under the system-call seam (LD_PRELOAD shim: short writes / short reads, EINTR and errno failures EIO/ENOSPC/EDQUOT/EMFILE/... at decider-chosen calls; diagrams above the 8 KiB buffer size in a sixth of the runs). Oracle: anchored isomorphism (inputs/outputs in order, types, phases, edge types, coordinates), exact scalar for sqrt2^p w^k and 1e-9 relative otherwise, tensor equality where evaluable, and decodes under different hash orders isomorphic to each other. Under faults only a reported success with a missing/undecodable/different file is a violation. Non-trivial: >=2 boundaries, >=1 Hadamard edge, >=1 non-zero phase, and a decoded numbering that differs from the original. Distinct by (scenario digest, event digest).".into()
     }
     fn assumptions(&self) -> Vec<String> {
         vec![
@@ -517,7 +646,7 @@ impl Property for C13 {
         ]
     }
     fn real_vs_stub(&self) -> Value {
-        json!({"real": ["JsonGraph::from_graph / to_graph", "phase and scalar codecs", "serde_json", "serde impls of hash_graph::Graph", "write_graph / read_graph on a real filesystem (tmpfs, /dev/full, RLIMIT_FSIZE)", "both graph backends"], "stubbed": ["RandomState keys of the encoder's and decoder's maps: decider draws (real RandomState in the child-process runs)"]})
+        json!({"real": ["JsonGraph::from_graph / to_graph", "phase and scalar codecs", "serde_json", "serde impls of hash_graph::Graph", "write_graph / read_graph on a real filesystem (tmpfs, /dev/full, RLIMIT_FSIZE; open/read/write behind the LD_PRELOAD shim in the file_sys runs)", "both graph backends"], "stubbed": ["RandomState keys of the encoder's and decoder's maps: decider draws (real RandomState in the child-process runs)"]})
     }
     fn sub_batches(&self) -> Vec<SubBatch> {
         vec![
@@ -525,6 +654,7 @@ impl Property for C13 {
             SubBatch { name: "serde", quick: 6_000, thorough: 300_000 },
             SubBatch { name: "file", quick: 3_000, thorough: 60_000 },
             SubBatch { name: "file_torn", quick: 160, thorough: 4_000 },
+            SubBatch { name: "file_sys", quick: 1_500, thorough: 30_000 },
         ]
     }
     fn expected_probes(&self) -> Vec<&'static str> {
@@ -542,7 +672,7 @@ impl Property for C13 {
     }
 
     fn generate(&self, d: &mut Decider, _tier: Tier, sub: &str) -> Sc {
-        let large = (sub == "file" || sub == "file_torn" || sub == "string") && d.coin("large", 1, if sub == "string" { 40 } else { 6 });
+        let large = (sub == "file" || sub == "file_torn" || sub == "file_sys" || sub == "string") && d.coin("large", 1, if sub == "string" { 40 } else { 6 });
         let g = gen::json_diagram_sized(d, large);
         let form = match sub {
             "string" => Form::Str(2 + d.choose("ndec", 3)),
@@ -553,6 +683,11 @@ impl Property for C13 {
                 4 => Fault::OutNoDir,
                 _ => Fault::OutIsDir,
             }),
+            "file_sys" => {
+                let hard = d.coin("sys.hard", 1, 3);
+                let plan = crate::cli::gen_sysplan(d, hard);
+                Form::File(if d.coin("sys.read", 1, 2) { Fault::SysRead(plan) } else { Fault::SysWrite(plan) })
+            }
             _ => Form::File(Fault::OutEfbig(d.choose("efbig", if large { 30_000 } else { 3000 }) as u64)),
         };
         Sc { g, hash_backend: d.coin("hb", 1, 2), decode_hash_backend: d.coin("dhb", 1, 2), form, pre: d.choose("pre", 3) as u8 }
@@ -614,6 +749,19 @@ impl Property for C13 {
     fn shrink(&self, sc: &Sc) -> Vec<Sc> {
         let mut c = vec![];
         let g = &sc.g;
+        match &sc.form {
+            Form::File(Fault::SysWrite(p)) => {
+                for q in crate::cli::shrink_sysplan(p) {
+                    c.push(Sc { form: Form::File(Fault::SysWrite(q)), ..sc.clone() });
+                }
+            }
+            Form::File(Fault::SysRead(p)) => {
+                for q in crate::cli::shrink_sysplan(p) {
+                    c.push(Sc { form: Form::File(Fault::SysRead(q)), ..sc.clone() });
+                }
+            }
+            _ => {}
+        }
         // drop vertices (keep boundaries attached: dropping a spider drops its boundary too if it becomes isolated)
         for v in (0..g.verts.len()).rev() {
             let mut h = g.without_vertex(v);
